@@ -745,7 +745,11 @@ class World:
         rec = {"ev": "compress", "src": src, "out": name, "method": method, "cap": int(cap or 0), "rev": bool(rev),
                "cutoff0": cutoff == 0.0, "cutoff": repr(cutoff), "kind": kind, "ranks": ranks, "multi": multi, "exc": "", "ongrid": False, "val": [],
                "bonds": [], "qbonds": [], "maxbond": 0, "liso": [], "riso": [], "same": 0, "err2q": 0, "disc2q": 0,
-               "sweeps": ["R", "L"], "iters": 0, "form": "", "site": 0, "capped": list(range(1, L))}
+               "sweeps": ["R", "L"], "iters": 0, "form": "", "site": 0, "capped": list(range(1, L)),
+               "normalize": bool(opts.get("normalize", False)), "inplace": bool(opts.get("inplace", False)),
+               "eqn": opts.get("equalize_norms", False) is not False, "eqnorms": repr(opts.get("equalize_norms", False)),
+               "normq": 0, "inputsame": 0, "exp10": int(round(float(getattr(x, "exponent", 0.0) or 0.0)))}
+        normalize = rec["normalize"]
         try:
             with warnings.catch_warnings():
                 warnings.simplefilter("ignore")
@@ -780,7 +784,17 @@ class World:
                         if "sweep_sequence" in opts:
                             kw["sweep_sequence"] = opts["sweep_sequence"]
                             rec["sweeps"] = list(opts["sweep_sequence"])
-                    y = tensor_network_1d_compress(x, max_bond=cap, cutoff=cutoff, method=method, sweep_reverse=rev, **kw)
+                    for o in ("normalize", "equalize_norms"):
+                        if o in opts:
+                            kw[o] = opts[o]
+                    if rec["inplace"]:
+                        y = tensor_network_1d_compress(x.copy(), max_bond=cap, cutoff=cutoff, method=method, sweep_reverse=rev,
+                                                       inplace=True, **kw)
+                    else:
+                        y = tensor_network_1d_compress(x, max_bond=cap, cutoff=cutoff, method=method, sweep_reverse=rev, **kw)
+                        # the operand of the plain spelling must still denote its value
+                        again = U.dense_op(x) if kind == "mpo" else U.dense_vec(x)
+                        rec["inputsame"] = qdiff(again, m["val"].reshape(np.asarray(again).shape), 1e-3 if _f32(self.dtype) else 1e-9)
             val, odims, bonds = self.measure(y, kind)
             if odims != dims:
                 raise ValueError("measure: physical sizes changed %s -> %s" % (dims, odims))
@@ -788,6 +802,11 @@ class World:
             rec.update(bonds=bonds, qbonds=[int(b) for b in y.bond_sizes()], maxbond=int(y.max_bond()), liso=liso, riso=riso)
             fit = method in FIT_TYPE
             tol = (2e-3 if fit else 2e-4) if _f32(self.dtype) else (1e-6 if fit else 1e-8)
+            nin = float(np.sqrt(np.vdot(m["val"], m["val"]).real)) or 1.0
+            if normalize:
+                # the result is compared with input / ||input||: everything below is in units of ||input||
+                rec["normq"] = qdiff(float(np.vdot(val, val).real), 1.0, 1e-3 if _f32(self.dtype) else 1e-8)
+                val = np.asarray(val) * nin
             rec["same"] = qdiff(val, m["val"].reshape(np.asarray(val).shape), tol)
             vout = np.asarray(val)
             if kind == "mpo":
@@ -917,6 +936,54 @@ def compress_campaign(seed, tid, kind, dtype, ncombos, methods, thorough=False):
         if meth in ("direct", "mps.compress", "mps.compress_site") and r.random() < 0.3:
             cutoff = r.choice([1e-12, 1e-3, 0.05, 0.3])
         w.compress(src, meth, cap, rev, cutoff=cutoff, **opts)
+    return w
+
+
+OPTION_VARIANTS = [(inpl, eqn, expo) for inpl in (False, True) for eqn in (False, True, 1.0) for expo in (0, 1)]
+
+
+def options_campaign(seed, tid, kind, dtype, methods, full):
+    """the option grid of tensor_network_1d_compress, enumerated (nothing is left to the draw):
+    every registered method x normalize {False, True} x sweep_reverse {False, True}, each with variants of
+    (inplace, equalize_norms in {False, True, 1.0}, stored exponent of the input in {0, 1}): all 12 when `full`,
+    otherwise 3 that rotate through the 12 from one combination to the next"""
+    r = random.Random(seed)
+    w = World(r, tid, dtype)
+    dims = [2, 2, 2]
+    src = None
+    for _ in range(20):
+        cand = w.new_sum(kind, dims, 2)
+        if cand not in w.objs:
+            continue
+        v = np.asarray(w.meta[cand]["val"])
+        if kind == "mpo":
+            v = v.reshape(dims + dims).transpose([j for i in range(3) for j in (i, 3 + i)])
+            vd = [d * d for d in dims]
+        else:
+            vd = dims
+        if max(U.exact_ranks(v.reshape(-1), vd)) == 2:
+            src = cand
+            break
+    if src is None:
+        return w
+    x = w.objs[src]
+
+    def with_exponent():
+        y = x.copy()
+        y.exponent = 1.0
+        return y
+    srce = w.op("scale", [src], with_exponent, kind, c=[10, 0], how="exponent", bound=40 * float(np.max(w.absval(src))))
+    idx = 0
+    for meth in methods:
+        for norm in (False, True):
+            for rev in (False, True):
+                variants = OPTION_VARIANTS if full else [OPTION_VARIANTS[(idx + 5 * j) % 12] for j in range(3)]
+                for inpl, eqn, expo in variants:
+                    caps = (2, 1) if full else ((1,) if idx % 4 == 3 else (2,))
+                    for cap in caps:
+                        target = srce if (expo and srce) else src
+                        w.compress(target, meth, cap, rev, normalize=norm, inplace=inpl, equalize_norms=eqn)
+                idx += 1
     return w
 
 
@@ -1056,7 +1123,7 @@ def replay_compress_case(case, tid, dtype, seed):
     src = w.new_sum(kind, dims, case["r"])
     if src not in w.objs:
         return w
-    w.compress(src, case["method"], case["cap"] or None, case["rev"])
+    w.compress(src, case["method"], case["cap"] or None, case["rev"], normalize=bool(case.get("normalize", False)))
     rec = w.recs[-1]
     if rec.get("ev") == "compress":
         rec["model"] = {"bonds": case["bonds"], "centre": case["centre"], "lossy": case["lossy"], "r": case["r"],
@@ -1139,6 +1206,15 @@ def run(ctx):
         w = multilayer_campaign(300000 * (seed + 1) + k, ntr, "complex128", methods, 24 if quick else 80)
         recs += w.recs
         ntr += 1
+    # C->S 3: the option grid (deterministic): method x normalize x sweep_reverse x (inplace, equalize_norms, exponent)
+    grid = [("mps", "complex128")] if quick else [("mps", "complex128"), ("mpo", "complex128"), ("mps", "float64"), ("mpo", "float64")]
+    ngrid = 0
+    for k, (kind, dt) in enumerate(grid):
+        w = options_campaign(400000 * (seed + 1) + k, ntr, kind, dt, methods, full=not quick)
+        ngrid += sum(1 for rr in w.recs if rr["ev"] == "compress")
+        recs += w.recs
+        ntr += 1
+    ctx.extra["option_grid_records"] = ngrid
     ctx.extra["records_skipped_for_magnitude"] = skipped
     lap("campaigns")
 
@@ -1160,8 +1236,8 @@ def run(ctx):
     ctx.clauses.update(["Returns", "OnGrid", "WellFormed", "GeneratorExact", "RoundTrip", "ToDenseExact", "ShapeExact", "SumExact",
                         "ScaleExact", "ConjExact", "ValueUnchanged", "ApplyExact", "TransposeExact", "PartialTraceExact", "FillExact", "PartialTraceExact.Transposed", "WellTyped",
                         "NormalizeExact", "NormReturned", "OverlapExact", "NormExact", "ExpecExact", "TraceExact", "AmplitudeExact",
-                        "BondCap", "BondSizesHonest", "Untruncated", "CentreWherePromised", "ErrorBound",
-                        "model: Denotes QueryExact BondBook (C09_MPSAlgebra)", "model: BondCap CentreWherePromised ValueKept (C09_Compress)"])
+                        "BondCap", "BondSizesHonest", "Untruncated", "CentreWherePromised", "ErrorBound", "NormIsOne", "InputUntouched",
+                        "model: Denotes QueryExact BondBook (C09_MPSAlgebra)", "model: BondCap CentreWherePromised ValueKept NormalizedAtCentre (C09_Compress)"])
     ctx.assumptions += [
         "exact domain: sums of <= 3 product states / operators with entries re in -2..2, im in -1..1; L in 2..4, site dependent physical sizes in {2,3}; dense size <= 81 (states), <= 16 (operators)",
         "conventions (from the docstrings): operator matrix rows = upper (ket-like) indices; x.overlap(y) = <y|x>; expec_TN_1D(x.H, A, y) = <x|A|y>; .H of an operator conjugates without transposing",
